@@ -1,13 +1,29 @@
 /-
   C08 — encoders emit only well-formed output; transcoding stays valid.
 
-  Proved here: the container-length bookkeeping of the CBOR encoder (Model JV.Model.EncoderLen = stack_item /
+  Proved here, (1) acceptance: the container-length bookkeeping of the CBOR encoder (Model JV.Model.EncoderLen = stack_item /
   end_value / visit_begin_* / visit_end_* of cbor_encoder.hpp; the MessagePack and UBJSON encoders use the
   same scheme), for event sequences of any shape and depth: if every announced length equals the number
   of items actually pushed the sequence is accepted and counts as exactly one item of its parent; an
-  array or object announced with a wrong length is refused with too_few_items / too_many_items. Together
-  with C06.cbor_roundtrip (the bytes written for accepted data decode, under the RFC 8949 reference
-  decoder, to that data) this is the CBOR instance of the property on the data-model core.
+  array or object announced with a wrong length is refused with too_few_items / too_many_items.
+
+  Proved here, (2) the output denotes the input, for all four binary encoders on the data-model core: the encoders are modelled as
+  consumers of visitor EVENTS (JV.Model.EncoderEvents: CBOR / MessagePack / UBJSON write each event's bytes at once, definite
+  lengths; BSON keeps a stack of open containers, names array items by index, remembers the member name for the next value and
+  back-patches every document's length when it ends - nothing reaches the sink before the root ends). For EVERY value v in the
+  format's domain, feeding `events v` (the sequence basic_json::dump produces: each container announced with its length) to the
+  encoder model (a) passes the length bookkeeping and leaves it balanced, and (b) leaves in the sink bytes which the format's
+  reference decoder (JV.Spec.Cbor / Msgpack / Ubjson / Bson - written from the specifications, the ones the real decoders are judged
+  by in C07) reads back as the documented image of v, leaving whatever follows untouched: `cbor_output_denotes_input`,
+  `msgpack_output_denotes_input`, `ubjson_output_denotes_input`, `bson_output_denotes_input`. These are corollaries of the C06
+  round trips through `*_events_are_encode` (the event-driven model writes exactly the bytes of the value-level model `encode`).
+  They are statements about the encoder MODELS; the models are tied to the real encoders byte for byte by the C06 streams
+  `cbor-encoder-model`, `msgpack-encoder-model`, `ubjson-encoder-model`, `bson-encoder-model` (value level, encode_X) and by this
+  check's `encoder-events-model` stream (event level: the same event tokens pushed into the real *_bytes_encoder and into
+  JV.Model.EncoderEvents, bytes and refusals compared).
+  Domains: CBOR `OK` (ints in [-2^63, 2^64), lengths < 2^64), MessagePack `OKm` (lengths < 2^32), UBJSON `OKu` (ints < 2^63; a byte
+  string comes back as the array of its bytes), BSON `OKb` (root a container - a root array comes back as the document keyed by its
+  indices -, names without 0x00, ints < 2^63, whole document < 2^31 bytes; a byte string comes back marked "ext").
 
   Decided per case on the real code (see the check's streams): all four binary encoders and both JSON
   encoders on generated event sequences (right, wrong and absent lengths; tags; string packing), outputs
@@ -17,6 +33,10 @@
 -/
 import JV.Proofs.EncoderLen
 import JV.Proofs.CborRoundtrip
+import JV.Proofs.MsgpackRoundtrip
+import JV.Proofs.UbjsonRoundtrip
+import JV.Proofs.BsonRoundtrip
+import JV.Proofs.EncoderEvents
 namespace JV.Props.C08
 open JV Model.EncoderLen
 
@@ -37,15 +57,81 @@ theorem wrong_object_length_refused (n : Nat) (ms : List Tree) (st : List Frame)
     run st (events (.obj (some n) ms)) = .error (if ms.length < n then .tooFew else .tooMany) :=
   run_wrong_object n ms st hne hx
 
-/-- accepted CBOR core data is written as bytes that denote exactly that data (restated from C06 for this property) -/
+/-! ### the output denotes the input -/
+/-- the event sequence `basic_json::dump(visitor)` produces for a value (every container announced with its length) -/
+abbrev valueEvents : Model.Cbor.CV → List Model.EncoderEvents.Ev := Model.EncoderEvents.events
+
+/-- the events of a value, pushed into the event-driven encoder models, write exactly the bytes of the value-level models -/
+theorem cbor_events_are_encode (v : Model.Cbor.CV) : Model.EncoderEvents.feed Model.EncoderEvents.Cbor.emit (valueEvents v) = Model.Cbor.encode v :=
+  Model.EncoderEvents.Cbor.feed_events v
+theorem msgpack_events_are_encode (v : Model.Cbor.CV) : Model.EncoderEvents.feed Model.EncoderEvents.Msgpack.emit (valueEvents v) = Model.Msgpack.encode v :=
+  Model.EncoderEvents.Msgpack.feed_events v
+theorem ubjson_events_are_encode (v : Model.Cbor.CV) : Model.EncoderEvents.feed Model.EncoderEvents.Ubjson.emit (valueEvents v) = Model.Ubjson.encode v :=
+  Model.EncoderEvents.Ubjson.feed_events v
+/-- BSON: through the stack of open containers and the back-patched lengths; refused (`none`) exactly for a scalar root -/
+theorem bson_events_are_encode (v : Model.Cbor.CV) (h : Model.Bson.scalarsOK v = true) :
+    Model.EncoderEvents.Bson.feed (valueEvents v) = Model.Bson.encode v :=
+  Model.EncoderEvents.Bson.feed_events v h
+
+/-- the events of ANY value announce exact lengths: the bookkeeping accepts them and ends balanced -/
+theorem value_events_accepted (v : Model.Cbor.CV) : run [] ((valueEvents v).map Model.EncoderEvents.shape) = .ok [] :=
+  Model.EncoderEvents.events_accepted v
+
+/-- CBOR: for every value of the core in the domain, its events are accepted and the bytes the encoder model writes for them denote,
+    under the RFC 8949 reference decoder, exactly that value (whatever follows is left untouched) -/
 theorem cbor_output_denotes_input (v : Model.Cbor.CV) (hv : Model.Cbor.OK v) (rest : Bytes) :
-    Spec.Cbor.item (Model.Cbor.need v) none (Model.Cbor.encode v ++ rest) = .ok (Model.Cbor.toBV v) rest :=
-  Model.Cbor.enc_dec v rest _ hv (Nat.le_refl _)
+    run [] ((valueEvents v).map Model.EncoderEvents.shape) = .ok [] ∧
+    Spec.Cbor.item (Model.Cbor.need v) none (Model.EncoderEvents.feed Model.EncoderEvents.Cbor.emit (valueEvents v) ++ rest) = .ok (Model.Cbor.toBV v) rest := by
+  rw [cbor_events_are_encode]
+  exact ⟨value_events_accepted v, Model.Cbor.enc_dec v rest _ hv (Nat.le_refl _)⟩
+
+/-- MessagePack: the same, under the MessagePack reference decoder -/
+theorem msgpack_output_denotes_input (v : Model.Cbor.CV) (hv : Model.Msgpack.OKm v) (rest : Bytes) :
+    run [] ((valueEvents v).map Model.EncoderEvents.shape) = .ok [] ∧
+    Spec.Msgpack.item (Model.Cbor.need v) (Model.EncoderEvents.feed Model.EncoderEvents.Msgpack.emit (valueEvents v) ++ rest) = .ok (Model.Cbor.toBV v) rest := by
+  rw [msgpack_events_are_encode]
+  exact ⟨value_events_accepted v, Model.Msgpack.enc_dec v rest _ hv (Nat.le_refl _)⟩
+
+/-- UBJSON: the same, under the UBJSON reference decoder (entered with explicit fuel: `Model.Ubjson.item`, which is
+    `Spec.Ubjson.decode` by `C06.ubjson_item_is_decode`) and the documented mapping (a byte string comes back as the array of its bytes) -/
+theorem ubjson_output_denotes_input (v : Model.Cbor.CV) (hv : Model.Ubjson.OKu v) (rest : Bytes) :
+    run [] ((valueEvents v).map Model.EncoderEvents.shape) = .ok [] ∧
+    Model.Ubjson.item (Model.Ubjson.needU v) (Model.EncoderEvents.feed Model.EncoderEvents.Ubjson.emit (valueEvents v) ++ rest) = .ok (Model.Ubjson.toBVu v) rest := by
+  rw [ubjson_events_are_encode]
+  exact ⟨value_events_accepted v, Model.Ubjson.enc_dec v rest _ hv (Nat.le_refl _)⟩
+
+/-- BSON: for every value in `OKb` the events are not refused, and what the root's end hands to the sink is read back by the BSON
+    reference decoder's entry point as the documented image (a byte string marked "ext", a root array as the document keyed by its
+    indices), leaving whatever follows untouched -/
+theorem bson_output_denotes_input (v : Model.Cbor.CV) (hv : Model.Bson.OKb v) (rest : Bytes) :
+    ∃ bytes, Model.EncoderEvents.Bson.feed (valueEvents v) = some bytes ∧
+             Spec.Bson.decode (bytes ++ rest) = .ok (Model.Bson.toBVRoot v) rest := by
+  rw [bson_events_are_encode v (Model.Bson.scalarsOK_of_OKv v hv.2.1)]
+  exact Model.Bson.decode_encode v hv rest
 
 /-! ### non-vacuity -/
 example : Exact (.arr (some 2) [.scalar, .obj none [.scalar, .arr (some 0) []]]) := by
   simp [Exact, ExactList]
 example : run [] (events (.arr (some 2) [.scalar])) = .error .tooFew := by rfl
 example : run [] (events (.obj (some 1) [.scalar, .scalar])) = .error .tooMany := by rfl
+
+/-- the events of { "a": [1, "x"], "b": {} } and what the four encoder models write for them -/
+def sampleV : Model.Cbor.CV := .map [([97], .arr [.int 1, .str [120]]), ([98], .map [])]
+example : (valueEvents sampleV).length = 10 := by decide
+example : Model.EncoderEvents.feed Model.EncoderEvents.Cbor.emit (valueEvents sampleV) = [0xa2, 0x61, 0x61, 0x82, 0x01, 0x61, 0x78, 0x61, 0x62, 0xa0] := by decide
+example : Model.EncoderEvents.feed Model.EncoderEvents.Msgpack.emit (valueEvents sampleV) = [0x82, 0xa1, 0x61, 0x92, 0x01, 0xa1, 0x78, 0xa1, 0x62, 0x80] := by decide
+example : Model.EncoderEvents.feed Model.EncoderEvents.Ubjson.emit (valueEvents sampleV) =
+    [123, 35, 85, 2, 85, 1, 97, 91, 35, 85, 2, 85, 1, 83, 85, 1, 120, 85, 1, 98, 123, 35, 85, 0] := by decide
+example : Model.EncoderEvents.Bson.feed (valueEvents sampleV) =
+    some [37, 0, 0, 0, 4, 97, 0, 21, 0, 0, 0, 16, 48, 0, 1, 0, 0, 0, 2, 49, 0, 2, 0, 0, 0, 120, 0, 0, 3, 98, 0, 5, 0, 0, 0, 0, 0] := by decide
+/-- the BSON encoder refuses a scalar before any container, a second root, and an integer above INT64_MAX; an unfinished root leaves
+    the sink empty -/
+example : Model.EncoderEvents.Bson.feed [.int 1] = none ∧
+    Model.EncoderEvents.Bson.feed [.beginObj 0, .endObj, .beginObj 0, .endObj] = none ∧
+    Model.EncoderEvents.Bson.feed [.beginArr 1, .int (2 ^ 63)] = none ∧
+    Model.EncoderEvents.Bson.feed [.beginArr 1, .int 1] = some [] := by decide
+example : Model.Bson.OKb sampleV := by
+  refine ⟨rfl, ?_, by decide +kernel, by decide +kernel⟩
+  simp [sampleV, Model.Bson.OKv, Model.Bson.OKvList, Model.Bson.OKvMembers, Model.Bson.NameOK, Spec.Rfc8259.validUtf8]
 
 end JV.Props.C08
